@@ -23,7 +23,22 @@ PATH = {"b": "b/",
         # only inside URI *values* (xsd:anyURI), never in names: a query string with an ampersand
         "amp": "q?a=1&b=2"}
 
+# The application namespaces have several concrete spellings; which one a trace uses follows from its
+# salt (set_variant).  Traces replayed one after another in one process therefore bind the same
+# prefixes to DIFFERENT URIs, and only the current spelling maps back to the token: anything a
+# process-wide cache carries over from an earlier document shows up as an unknown URI.
+HEAD_VARIANTS = {
+    "a": ["http://a.example/", "http://a.example.org/", "http://alpha.example/"],
+    "c": ["http://c.example/", "http://c.example.org/", "http://gamma.example/"],
+}
 _HEADS_BY_LEN = sorted(HEADS.items(), key=lambda kv: -len(kv[1]))
+
+
+def set_variant(n):
+    global _HEADS_BY_LEN
+    for k, alts in HEAD_VARIANTS.items():
+        HEADS[k] = alts[n % len(alts)]
+    _HEADS_BY_LEN = sorted(HEADS.items(), key=lambda kv: -len(kv[1]))
 
 
 def seg_text(i, seg):
